@@ -303,7 +303,7 @@ theorem labels_of_admissible (esc : Bytes → Bytes) (legacy : Bool) (attrs extr
     nodupKeys ((getAttrs esc legacy attrs ++ extra).map (·.1)) = true := by
   unfold Spec.labelsAdmissible at h
   simp only [Bool.and_eq_true, List.all_eq_true, Bool.not_eq_true', Bool.or_eq_true] at h
-  obtain ⟨⟨⟨hattrs, hextra⟩, hnd⟩, hu⟩ := h
+  obtain ⟨⟨⟨⟨hattrs, hextra⟩, hnd⟩, hu⟩, _⟩ := h
   have hu' : legacy = true ∨ (attrs.map (·.1)).Nodup := by
     rcases hu with h | h
     · exact Or.inl h
